@@ -28,10 +28,10 @@ Definition dotstring_case_ok (rest : list Z) : Prop :=
     let s := NsZ sz in                         (* the argument, as bytes *)
     obs = ZsN (dot_string s) /\ unescape (NsZ obs) = Some s.
 
-Theorem check_dotstring_sound : forall l c tag pos diag r,
-  check_dotstring l = Some (verdict c tag pos diag, r) -> c = 0 \/ c = 1 -> c = 0 /\ r = [] /\ dotstring_case_ok l.
+Theorem check_dotstring_sound : forall l c v r,
+  check_dotstring l = Some (c :: v, r) -> c = 0 \/ c = 1 -> c = 0 /\ r = [] /\ dotstring_case_ok l.
 Proof.
-  intros l c tag pos diag r H Hc. unfold check_dotstring in H. pinv H. subst.
+  intros l c v r H Hc. unfold check_dotstring in H. pinv H. subst.
   cbv zeta in Ev. apply ok_or_mismatch in Ev; [|exact Hc]. destruct Ev as [W ->]. ff_split W.
   match goal with H : (_ =? _) = true |- _ => apply Z.eqb_eq in H; subst end.
   match goal with H : obytes_eqb _ _ = true |- _ => apply obytes_eqb_some in H; destruct H as (b & Eb & Eo) end.
@@ -133,10 +133,10 @@ Definition sprint_case_ok (rest : list Z) : Prop :=
         obs = ZsN ([100; 105; 103; 114; 97; 112; 104; 32] ++ dot_string (d_name d) ++ [32; 123; 10] ++ body ++ [125; 10])%N)
      \/ (status = 2 /\ obs = [] /\ exists s a, In s stmts /\ In a (stmt_attrs s) /\ snd a = AOther)).
 
-Theorem check_sprint_sound : forall l c tag pos diag r,
-  check_sprint l = Some (verdict c tag pos diag, r) -> c = 0 \/ c = 1 -> c = 0 /\ r = [] /\ sprint_case_ok l.
+Theorem check_sprint_sound : forall l c v r,
+  check_sprint l = Some (c :: v, r) -> c = 0 \/ c = 1 -> c = 0 /\ r = [] /\ sprint_case_ok l.
 Proof.
-  intros l c tag pos diag r H Hc. unfold check_sprint in H. pinv H. subst.
+  intros l c v r H Hc. unfold check_sprint in H. pinv H. subst.
   destruct (g_wfb a) eqn:Ewf; cbn [negb] in Ev; [|rejected Ev]. apply g_wfb_spec in Ewf.
   cbv zeta in Ev. fold (sprint_opts a0 a1 a2 a3 a4 a5 a6) in Ev.
   apply ok_or_mismatch in Ev; [|exact Hc]. destruct Ev as [W ->].
